@@ -244,7 +244,7 @@ impl BackwardEngine {
         // This handles edge cases where index might miss some patterns
         if goal.candidate_rules.is_empty() {
             for rule in self.knowledge_base.get_rules() {
-                if self.rule_could_prove_goal(&rule, goal) {
+                if rule.enabled && self.rule_could_prove_goal(&rule, goal) {
                     goal.add_candidate_rule(rule.name.clone());
                 }
             }
